@@ -37,7 +37,7 @@ func init() {
 	register("C08", func(tier string) CheckSpec {
 		budget := 280 * time.Second
 		if tier == "thorough" {
-			budget = 20*time.Minute
+			budget = 20 * time.Minute
 		}
 		return CheckSpec{Level: "model_checking", Rule: searchRule, Assumptions: xa, Budget: budget, Units: slashUnits(tier),
 			MustSee: []string{"slash:jailed", "slash:already-jailed", "slash:not-in-set", "slash:not-launched", "slash:double-sign", "slash:bounced", "slash:unknown-id",
@@ -46,7 +46,7 @@ func init() {
 	register("C09", func(tier string) CheckSpec {
 		budget := 280 * time.Second
 		if tier == "thorough" {
-			budget = 20*time.Minute
+			budget = 20 * time.Minute
 		}
 		return CheckSpec{Level: "model_checking", Rule: searchRule, Assumptions: xa, Budget: budget, Units: slashUnits(tier),
 			MustSee: []string{"slash:jailed", "slash:bounced", "meter-replenished", "ack-relayed:bounced", "ack-relayed:handled", "slash-sent", "slash-retried"}}
